@@ -38,7 +38,7 @@ def main():
     global REPO
     env = dict(os.environ)
     if not a.in_place:
-        wt = "/tmp/seedrepo"
+        wt = os.environ.get("SEED_WT", "/tmp/seedrepo")      # several evaluations may run side by side on different worktrees
         if not os.path.exists(wt):
             sh("git -C /repo worktree add -q --detach %s HEAD" % wt)
         sh("git -C %s checkout -q --detach %s" % (wt, sh("git -C /repo rev-parse HEAD").stdout.strip()))
